@@ -470,14 +470,15 @@ def fuzz_form(rng):
     names = ["a", "b", "q", "q1", "g", "r", "l", "1a", "a b", "a-b", "a.b", "meta", "instanceID", "data", "name", "é", "a:b", "_x", "qqq", "${q}", "x" * 70]
     params = ["randomize=true", "randomize=maybe", "seed=1", "randomize=true seed=x", "start=1 end=2 step=1", "start=a", "max-pixels=abc", "x", "=", "a=b=c",
               "value=v label=l", ";", "rows=3", "quality=low", "allow-mock-accuracy=true", "capture-accuracy=x", "track-changes=true", "location-priority=x"]
-    exprs = ["${q}", "${", "${}", "${q", "${q}}", "${ q }", "${nope}", ". > 1", "${q} + ${q1}", "${last-saved#q}", "${last-saved#nope}", "pulldata('f', 'a', 'b', ${q})",
+    exprs = ["${data}", "count(${data})", "${q}", "${", "${}", "${q", "${q}}", "${ q }", "${nope}", ". > 1", "${q} + ${q1}", "${last-saved#q}", "${last-saved#nope}", "pulldata('f', 'a', 'b', ${q})",
              "indexed-repeat(${q}, ${r}, 1)", "position(..)", "instance('l')/root/item", "${q1}${q}", "$ {q}", "\u0001", "a < b & c", "yes", "no", "search('f')",
              "field-list", "table-list", "label", "list-nolabel", "minimal"]
     cols = ["label", "hint", "relevant", "constraint", "required", "calculation", "default", "choice_filter", "parameters", "appearance", "repeat_count", "trigger",
             "read_only", "constraint_message", "label::en", "hint::fr", "media::image", "image", "bind::x", "body::y", "instance::z", "save_to", "guidance_hint", "jr", "x:jr",
             # column names that mean something inside pyxform
             "bind", "control", "instance", "media", "fields", "action", "bind::nodeset", "body::ref", "bind::tag", "choices", "children", "parent", "extra_data", "query", "itemset",
-            "relevant::en", "label::parent", "hint::bind", "noAppErrorString", "bind::jr:noAppErrorString", "body::bodyless"]
+            "relevant::en", "label::parent", "hint::bind", "noAppErrorString", "bind::jr:noAppErrorString", "body::bodyless",
+            "parameters::a", "body::nodeset", "bind::toParseString", "instance::tag", "appearance::x", "trigger::y", "default::en", "choice_filter::z"]
     survey = []
     for _ in range(rng.randint(1, 8)):
         row = {"type": rng.choice(types)}
